@@ -3,7 +3,7 @@
 use crate::common::*;
 use cteepbd::types::*;
 
-pub fn units(tier: &str, _seed: u64) -> Vec<String> {
+pub fn units(tier: &str, seed: u64) -> Vec<String> {
     let mut v = vec![];
     let core: &[&str] = &[
         // grid only
@@ -39,6 +39,10 @@ pub fn units(tier: &str, _seed: u64) -> Vec<String> {
         v.push(unit(&[("shape", s), ("n", "1"), ("lm", "0"), ("fs", "PEN"), ("dom", "0.00001:0.01")]));
     }
     v.push(unit(&[("shape", core[1]), ("n", "1"), ("lm", "1"), ("fs", "PEN"), ("dom", "0.00001:0.01")]));
+    // a seed-selected slice of the block catalogue (rarely used services and carriers, unusual ids, several systems)
+    for (i, s) in catalogue(seed ^ 0xC01, if tier == "thorough" { 16 } else { 4 }, &[]).iter().enumerate() {
+        v.push(unit(&[("shape", s), ("n", "1"), ("lm", if i % 2 == 0 { "0" } else { "1" }), ("fs", "PEN"), ("bud", "90")]));
+    }
     if tier == "thorough" {
         for s in core {
             for lm in ["0", "1"] {
@@ -155,6 +159,8 @@ pub fn scenario(u: &Unit) -> String {
                 let l = &e.lines[i];
                 let carrier_of_line = match l.kind {
                     'U' => l.b.clone(),
+                    // auxiliary energy is electricity used by EPB services
+                    'X' => "ELECTRICIDAD".to_string(),
                     'P' => match l.a.as_str() {
                         "EL_INSITU" | "EL_COGEN" => "ELECTRICIDAD".to_string(),
                         x => x.to_string(),
@@ -169,7 +175,7 @@ pub fn scenario(u: &Unit) -> String {
                 match (l.kind, l.a.as_str()) {
                     ('U', "NEPB") => d_nepus = d_nepus + v,
                     ('U', "COGEN") => d_cgn = d_cgn + v,
-                    ('U', _) => d_epus = d_epus + v,
+                    ('U', _) | ('X', _) => d_epus = d_epus + v,
                     ('P', src) => match d_prod.iter_mut().find(|(s, _)| s == src) {
                         Some((_, acc)) => *acc = *acc + v,
                         None => d_prod.push((src.to_string(), v)),
